@@ -247,6 +247,11 @@ class Drawing:
             self._region(tree, centre, 0.5 * S * 0.96, 0, None, rs)
         for c in self.curves:
             c.finish()
+        self._summarise()
+
+    extra_labels = ()
+
+    def _summarise(self):
         self.n = len(self.curves)
         self.max_depth = max(c.depth for c in self.curves)
         self.has_arcs = any(c.has_arc for c in self.curves)
